@@ -77,6 +77,23 @@ def st_case(draw):
     n = draw(st.integers(2, 5))
     for i in range(n):
         ops.append(draw(st_rating()))
+        if draw(st.booleans()):
+            # follow-up request on the same object that differs from the previous one in exactly ONE cache key
+            prev = dict(ops[-1])
+            which = draw(st.sampled_from(["lda", "lda", "regressor", "names", "ts"]))
+            if which == "lda":
+                prev["lda"] = draw(st.sampled_from([v for v in (None, True, False) if v != prev["lda"]]))
+                if draw(st.booleans()):
+                    # LDA defaults differ between tree and non-tree regressors
+                    prev["regressor"] = draw(st.sampled_from(["SVR (RBF kernel)", "SVR (linear kernel)"]))
+                    ops[-1] = dict(ops[-1], regressor=prev["regressor"])
+            elif which == "regressor":
+                prev["regressor"] = draw(st.sampled_from([r for r in REGRESSORS if r != prev["regressor"]]))
+            elif which == "names":
+                prev["names"] = draw(st.lists(st.sampled_from(FEATS), min_size=2, max_size=6, unique=True))
+            else:
+                prev["ts"] = draw(st.sampled_from([t for t in ("zef18", "dir", "tuple") if t != prev["ts"]]))
+            ops.append(prev)
         if draw(st.integers(0, 2)) == 0:
             ops.append(draw(st.sampled_from([{"op": "refit_other"}, {"op": "edit"}, {"op": "repreprocess"},
                                              {"op": "fit"}, {"op": "same_again"}])))
